@@ -72,3 +72,51 @@ def Merged.cycleDuration (m : Merged α) : Option α :=
       | some a, some b => if a == b then some a else none
       | none, none => none
       | _, _ => none) x
+
+
+/-! ## a merge whose components are merges — `MergedTimeline<MergedTimeline<T>>`
+
+`MergedTimeline<T>` is itself a `Timeline`, so it can be a component of another merge.  The outer merge applies the
+same folds to the *reported* metadata of its parts; in particular an inner merge without a common cycle duration (or an
+empty one) reports `None`, and then the outer merge has none either. -/
+
+structure Merged2 (α : Type) where
+  parts : List (Merged α)
+deriving Repr
+
+def Merged2.update (m : Merged2 α) (target : List (Val α)) (time : α) : Except Panic (List (Val α)) :=
+  go m.parts target
+where
+  go : List (Merged α) → List (Val α) → Except Panic (List (Val α))
+    | [], tgt => .ok tgt
+    | p :: rest, tgt =>
+      match p.update tgt time with
+      | .ok tgt' => go rest tgt'
+      | .error e => .error e
+
+def Merged2.startWith (m : Merged2 α) (values : List (Val α)) : Merged2 α :=
+  ⟨m.parts.map (·.startWith values)⟩
+
+def Merged2.delay (m : Merged2 α) : α := (minFirst (m.parts.map (·.delay))).getD (lit 0)
+
+def Merged2.duration (m : Merged2 α) : Option α :=
+  match m.parts.map (·.duration) with
+  | [] => some (lit 0)
+  | x :: xs => xs.foldl (fun mx y => if durLt y mx then mx else y) x
+
+def Merged2.repeat_ (m : Merged2 α) : Repeat :=
+  match m.parts.map (·.repeat_) with
+  | [] => .none
+  | x :: xs => xs.foldl (fun mx y => if Repeat.lt y mx then mx else y) x
+
+def Merged2.cycleDuration (m : Merged2 α) : Option α :=
+  match m.parts.map (·.cycleDuration) with
+  | [] => none
+  | x :: xs => xs.foldl (fun d1 d2 =>
+      match d1, d2 with
+      | some a, some b => if a == b then some a else none
+      | none, none => none
+      | _, _ => none) x
+
+/-- the flat merge with the same components in the same order -/
+def Merged2.flatten (m : Merged2 α) : Merged α := ⟨m.parts.flatMap (·.timelines)⟩
